@@ -191,6 +191,7 @@ Qed.
 Section IsIdem.
   Variable jv : list (bytes * json).
   Variable vdefs : list vardef.
+  Variable al : bool.
 
   Definition keeps (d : directive) : bool :=
     match dir_verdict jv vdefs d with DKeep => true | _ => false end.
@@ -210,9 +211,16 @@ Section IsIdem.
     rewrite Forall_forall in H. pose proof (H _ (nth_error_In _ _ En)) as Hk. cbn in Hk. unfold keeps in Hk.
     destruct (dir_verdict jv vdefs d); try discriminate. apply IH. apply Forall_forall. exact H.
   Qed.
-  Lemma eval_dirs_keep : forall ds, forallb keeps ds = true -> eval_dirs jv vdefs ds = Some ds.
+  Lemma eval_dirs_copy_keep : forall ds, forallb keeps ds = true -> eval_dirs_copy jv vdefs ds = Some ds.
   Proof.
-    intros ds H. unfold eval_dirs. rewrite walk_dirs_keep.
+    induction ds as [|d r IH]; cbn [forallb eval_dirs_copy]; intro H; [reflexivity|].
+    apply andb_prop in H. destruct H as [H1 H2]. unfold keeps in H1.
+    destruct (dir_verdict jv vdefs d); try discriminate. rewrite (IH H2). reflexivity.
+  Qed.
+  Lemma eval_dirs_keep : forall ds, forallb keeps ds = true -> eval_dirs jv vdefs al ds = Some ds.
+  Proof.
+    intros ds H. unfold eval_dirs. destruct al; [|apply eval_dirs_copy_keep; exact H].
+    unfold eval_dirs_aliased. rewrite walk_dirs_keep.
     - rewrite firstn_all2 by (rewrite combine_length, seq_length, Nat.min_id; lia).
       rewrite combine_seq_snd. reflexivity.
     - apply Forall_forall. intros [i d] Hin. cbn. apply in_combine_r in Hin.
@@ -220,20 +228,20 @@ Section IsIdem.
   Qed.
 
   Lemma is_walk_settled : forall f,
-      (forall s, settled_sel s = true -> is_node jv vdefs f s = Some s) /\
-      (forall l, forallb settled_sel l = true -> is_set jv vdefs f l = l).
+      (forall s, settled_sel s = true -> is_node jv vdefs al f s = Some s) /\
+      (forall l, forallb settled_sel l = true -> is_set jv vdefs al f l = l).
   Proof.
     induction f as [|f [IHA IHB]]; [split; reflexivity|]. split.
     - intros s Hs. rewrite is_node_S.
       destruct s as [a n args ds sub|c ds sub|fn ds]; cbn [settled_sel sel_dirs] in *;
         apply andb_prop in Hs; destruct Hs as [Hd Hsub]; rewrite (eval_dirs_keep _ Hd); try rewrite (IHB _ Hsub); reflexivity.
     - intros l Hl. rewrite is_set_S.
-      assert (E : is_pass jv vdefs f l = (l, false)).
+      assert (E : is_pass jv vdefs al f l = (l, false)).
       { induction l as [|s r IH]; [reflexivity|]. cbn [forallb] in Hl. apply andb_prop in Hl. destruct Hl as [H1 H2].
         cbn [is_pass]. rewrite (IHA s H1), (IH H2). reflexivity. }
       rewrite E. reflexivity.
   Qed.
-  Lemma is_sels_settled : forall f l, forallb settled_sel l = true -> is_sels jv vdefs f l = l.
+  Lemma is_sels_settled : forall f l, forallb settled_sel l = true -> is_sels jv vdefs al f l = l.
   Proof. intros f l H. apply (proj2 (is_walk_settled f)). exact H. Qed.
 End IsIdem.
 
@@ -247,21 +255,144 @@ Definition settled (jv : list (bytes * json)) (d : document) : bool :=
 Lemma doc_vardefs_rewrite : forall fo ff d, doc_vardefs (doc_rewrite fo ff d) = doc_vardefs d.
 Proof. unfold doc_rewrite. induction d as [|[o|f] d IH]; cbn; [reflexivity|rewrite IH; reflexivity|exact IH]. Qed.
 
-Lemma include_skip_settled_fix : forall jv d, settled jv d = true -> include_skip jv d = d.
+Lemma include_skip_gen_settled_fix : forall al jv d, settled jv d = true -> include_skip_gen al jv d = d.
 Proof.
-  intros jv d H. unfold settled in H. cbv zeta in H. rewrite forallb_forall in H.
-  unfold include_skip. cbv zeta. generalize dependent (doc_vardefs d). generalize (include_skip_fuel d). intros fu vdefs H.
+  intros al jv d H. unfold settled in H. cbv zeta in H. rewrite forallb_forall in H.
+  unfold include_skip_gen. cbv zeta. generalize dependent (doc_vardefs d). generalize (include_skip_fuel d). intros fu vdefs H.
   induction d as [|def d IH]; cbn; [reflexivity|].
   rewrite IH by (intros x Hx; apply H; right; exact Hx). f_equal.
   pose proof (H def (or_introl eq_refl)) as Hd. destruct def as [o|f].
-  - rewrite (is_sels_settled jv vdefs fu _ Hd). destruct o; reflexivity.
-  - rewrite (is_sels_settled jv vdefs fu _ Hd). destruct f; reflexivity.
+  - rewrite (is_sels_settled jv vdefs al fu _ Hd). destruct o; reflexivity.
+  - rewrite (is_sels_settled jv vdefs al fu _ Hd). destruct f; reflexivity.
 Qed.
 
-Theorem include_skip_idempotent_partial : forall jv d,
-    settled jv (include_skip jv d) = true ->
-    include_skip jv (include_skip jv d) = include_skip jv d.
-Proof. intros jv d H. apply include_skip_settled_fix. exact H. Qed.
+(* both variants of the pass are idempotent on their settled outputs ... *)
+Theorem include_skip_gen_idempotent_partial : forall al jv d,
+    settled jv (include_skip_gen al jv d) = true ->
+    include_skip_gen al jv (include_skip_gen al jv d) = include_skip_gen al jv d.
+Proof. intros al jv d H. apply include_skip_gen_settled_fix. exact H. Qed.
+
+(* ... and the output of the REPAIRED pass is always settled: every directive is visited, so no
+   evaluable @skip/@include is left behind (the fuel of the model suffices for every document) *)
+Section Settles.
+  Variable jv : list (bytes * json).
+  Variable vdefs : list vardef.
+  Notation keeps := (keeps jv vdefs).
+  Notation settled_sel := (settled_sel jv vdefs).
+
+  Lemma eval_dirs_copy_settles : forall ds r, eval_dirs_copy jv vdefs ds = Some r -> forallb keeps r = true.
+  Proof.
+    induction ds as [|d ds IH]; cbn [eval_dirs_copy]; intros r E.
+    - inversion E. reflexivity.
+    - destruct (dir_verdict jv vdefs d) eqn:Ev; [discriminate|apply IH; exact E|].
+      destruct (eval_dirs_copy jv vdefs ds) as [r'|]; [|discriminate]. inversion E; subst.
+      cbn [forallb]. unfold ProofsCompose.keeps at 1. rewrite Ev. cbn. apply IH. reflexivity.
+  Qed.
+
+  Lemma is_set_nil : forall f, is_set jv vdefs false f [] = [].
+  Proof. destruct f; [reflexivity|]. rewrite is_set_S. reflexivity. Qed.
+  Lemma is_set_placeholder : forall f, is_set jv vdefs false f [placeholder] = [placeholder].
+  Proof.
+    destruct f as [|f]; [reflexivity|]. rewrite is_set_S. cbn [is_pass].
+    assert (E : is_node jv vdefs false f placeholder = Some placeholder).
+    { destruct f as [|f]; [reflexivity|]. rewrite is_node_S. cbn. rewrite is_set_nil. reflexivity. }
+    rewrite E. reflexivity.
+  Qed.
+
+  Lemma sels_size_cons : forall s r, sels_size (s :: r) = (sel_size s + sels_size r)%nat.
+  Proof. reflexivity. Qed.
+  Lemma sel_size_pos : forall s, (1 <= sel_size s)%nat.
+  Proof. destruct s; cbn; lia. Qed.
+
+  Definition node_ok (f : nat) (s : selection) : Prop :=
+    match is_node jv vdefs false f s with
+    | None => True
+    | Some s' => settled_sel s' = true /\ (sel_size s' <= sel_size s)%nat
+    end.
+
+  Lemma is_pass_settles : forall f l,
+      (forall s, In s l -> node_ok f s) ->
+      (snd (is_pass jv vdefs false f l) = false ->
+         forallb settled_sel (fst (is_pass jv vdefs false f l)) = true /\
+         (sels_size (fst (is_pass jv vdefs false f l)) <= sels_size l)%nat) /\
+      (snd (is_pass jv vdefs false f l) = true ->
+         (sels_size (fst (is_pass jv vdefs false f l)) + 1 <= sels_size l)%nat).
+  Proof.
+    intros f. induction l as [|s r IH]; intro H; cbn [is_pass].
+    - split; [intros _; split; [reflexivity|apply le_n]|discriminate].
+    - pose proof (H s (or_introl eq_refl)) as Hs. unfold node_ok in Hs.
+      destruct (is_node jv vdefs false f s) as [s'|].
+      + destruct Hs as [Hs1 Hs2].
+        destruct (IH (fun x Hx => H x (or_intror Hx))) as [IH1 IH2].
+        destruct (is_pass jv vdefs false f r) as [r' b]. cbn [fst snd] in *. split.
+        * intro Eb. destruct (IH1 Eb) as [A B]. split.
+          -- cbn [forallb]. rewrite Hs1, A. reflexivity.
+          -- rewrite !sels_size_cons. lia.
+        * intro Eb. specialize (IH2 Eb). rewrite !sels_size_cons. lia.
+      + cbn [fst snd]. split; [discriminate|]. intros _. rewrite sels_size_cons. pose proof (sel_size_pos s). lia.
+  Qed.
+
+  Lemma in_sels_size : forall s l, In s l -> (sel_size s <= sels_size l)%nat.
+  Proof.
+    induction l as [|x l IH]; intros H; [destruct H|]. rewrite sels_size_cons.
+    destruct H as [E|H]; [subst; lia|specialize (IH H); lia].
+  Qed.
+
+  Lemma is_walk_settles : forall f,
+      (forall s, (2 * sel_size s + 1 <= f)%nat -> node_ok f s) /\
+      (forall l, (2 * sels_size l + 2 <= f)%nat ->
+                 forallb settled_sel (is_set jv vdefs false f l) = true /\
+                 (sels_size (is_set jv vdefs false f l) <= sels_size l)%nat).
+  Proof.
+    induction f as [|f [IHA IHB]]; [split; intros; lia|]. split.
+    - intros s Hf. unfold node_ok. rewrite is_node_S. unfold eval_dirs.
+      destruct (eval_dirs_copy jv vdefs (sel_dirs s)) as [ds'|] eqn:Ed; [|exact I].
+      pose proof (eval_dirs_copy_settles _ _ Ed) as Hk.
+      destruct s as [a n args ds sub|c ds sub|fn ds]; cbn [sel_dirs] in *.
+      + assert (Hsub : (2 * sels_size sub + 2 <= f)%nat) by (cbn [sel_size] in Hf; fold (sels_size sub) in Hf; lia).
+        destruct (IHB sub Hsub) as [B1 B2]. split.
+        * cbn [ProofsCompose.settled_sel sel_dirs]. rewrite Hk, B1. reflexivity.
+        * cbn [sel_size]. fold (sels_size sub). fold (sels_size (is_set jv vdefs false f sub)). lia.
+      + assert (Hsub : (2 * sels_size sub + 2 <= f)%nat) by (cbn [sel_size] in Hf; fold (sels_size sub) in Hf; lia).
+        destruct (IHB sub Hsub) as [B1 B2]. split.
+        * cbn [ProofsCompose.settled_sel sel_dirs]. rewrite Hk, B1. reflexivity.
+        * cbn [sel_size]. fold (sels_size sub). fold (sels_size (is_set jv vdefs false f sub)). lia.
+      + split; [cbn [ProofsCompose.settled_sel sel_dirs]; rewrite Hk; reflexivity|cbn; lia].
+    - intros l Hf. rewrite is_set_S.
+      assert (HN : forall s, In s l -> node_ok f s).
+      { intros s Hs. apply IHA. pose proof (in_sels_size s l Hs). lia. }
+      destruct (is_pass_settles f l HN) as [P1 P2].
+      destruct (is_pass jv vdefs false f l) as [l' removed]. cbn [fst snd] in *.
+      destruct removed.
+      + specialize (P2 eq_refl). unfold after_removal. destruct l' as [|x l'].
+        * rewrite is_set_placeholder. split; [reflexivity|]. cbn. cbn in P2. lia.
+        * assert (Hl' : (2 * sels_size (x :: l') + 2 <= f)%nat) by lia.
+          destruct (IHB _ Hl') as [B1 B2]. split; [exact B1|lia].
+      + apply P1. reflexivity.
+  Qed.
+End Settles.
+
+Lemma doc_member_size : forall d def, In def d ->
+  (match def with DOp o => sels_size (op_sels o) | DFrag f => sels_size (fr_sels f) end <= doc_size d)%nat.
+Proof.
+  induction d as [|x d IH]; intros def H; [destruct H|]. cbn [doc_size fold_right]. fold (doc_size d).
+  destruct H as [E|H]; [subst; lia|specialize (IH _ H); lia].
+Qed.
+
+Lemma include_skip_settles : forall jv d, settled jv (include_skip jv d) = true.
+Proof.
+  intros jv d. unfold settled. cbv zeta.
+  assert (EV : doc_vardefs (include_skip jv d) = doc_vardefs d) by (rewrite include_skip_rewrite; apply doc_vardefs_rewrite).
+  rewrite EV. unfold include_skip, include_skip_gen. cbv zeta.
+  apply forallb_forall. intros def Hin. apply in_map_iff in Hin. destruct Hin as [x [Ex Hx]]. subst def.
+  pose proof (doc_member_size d x Hx) as Hsz. unfold include_skip_fuel.
+  destruct x as [o|f]; cbn.
+  - apply (proj2 (is_walk_settles jv (doc_vardefs d) _)). lia.
+  - apply (proj2 (is_walk_settles jv (doc_vardefs d) _)). lia.
+Qed.
+
+Theorem include_skip_idempotent : forall jv d, include_skip jv (include_skip jv d) = include_skip jv d.
+Proof. intros jv d. apply include_skip_gen_settled_fix. apply include_skip_settles. Qed.
 
 (* ------------------------------------------------------------------ composition of the proved passes *)
 Lemma resp_le_trans : forall a b c, resp_le a b -> resp_le b c -> resp_le a c.
